@@ -50,6 +50,15 @@ def _num_str(r, v):
         forms += ["%d" % v, "%d." % v, "%d.0" % v, "%de0" % v]
     else:
         forms += [("%r" % v).lstrip("0") if 0 < v < 1 else repr(v), "%.3f" % v]
+    # exponent spellings: signed and unsigned exponents, either case of the letter, leading zeros in the exponent, no leading zero
+    from decimal import Decimal
+
+    d = Decimal(repr(float(v)))
+    for kk in (1, 2):
+        up, down = format(d.scaleb(-kk), "f"), format(d.scaleb(kk), "f")
+        forms += ["%se+%d" % (up, kk), "%sE+%d" % (up, kk), "%se%d" % (up, kk), "%se+0%d" % (up, kk), "%se-%d" % (down, kk), "%sE-0%d" % (down, kk)]
+        if up.startswith("0."):
+            forms.append("%se+%d" % (up[1:], kk))
     u = r.random()
     if u < 0.08:
         # a chain that mixes / and * (left to right: (a/b)*c), or * - + : operators of one precedence level share it
@@ -357,6 +366,9 @@ def c10_build(seed, tier):
                 if extra:
                     opp[r.choice(extra)] = _mag(r, exact4)  # almost opposite: one more variable
             ts.insert(r.randint(0, len(ts)), [opp, c2])
+        if r.random() < 0.12:
+            # a constraint whose coefficients cancelled (0 <= c, c >= 0): legal, printed as "0 <= c" / an empty coefficient map
+            ts.insert(r.randint(0, len(ts)), [{}, float(r.choice([0, 1, 2.5]))])
         return ts
 
     return {"op": "serial", "exact4": exact4, "c": {"in": ins, "out": outs, "a": lst(ins), "g": lst(names)}, "mode": r.choice(["machine_dict", "machine_file", "strings", "human_file"])}
@@ -1048,8 +1060,8 @@ FAMILIES = {
     "C18": [("c18_case", 1.0, 2000)],
 }
 RULES = {
-    "c09_case": "expression trees up to depth 3 over 4 variables (numbers, variables, coefficient*variable with and without '*', parenthesised sums with optional factor, absolute values with optional factor, chains of 3 sides, equalities), rendered with random spacing and number spellings; equivalence of parsed constraints and written relation decided by z3 for all real points; 15 malformed strings; parse twice",
-    "c10_case": "contracts with coefficient/constant magnitudes 1e-4..1e6 (4-significant-digit decimals and arbitrary floats), opposite-term pairs with equal / negated / unrelated constants at every position; machine dict, machine file, strings, human file; meaning compared by z3 with every number rounded to 4 significant digits for the human forms",
+    "c09_case": "expression trees up to depth 3 over 4 variables (numbers, variables, coefficient*variable with and without '*', parenthesised sums with optional factor, absolute values with optional factor, chains of 3 sides, equalities), rendered with random spacing and number spellings (integers, decimals with and without leading zero, exponents with +, - or no sign, e or E, leading zeros); equivalence of parsed constraints and written relation decided by z3 for all real points; 15 malformed strings; parse twice",
+    "c10_case": "contracts with coefficient/constant magnitudes 1e-4..1e6 (4-significant-digit decimals and arbitrary floats), opposite-term pairs with equal / negated / unrelated constants at every position, constraints without variables; machine dict, machine file, strings, human file; meaning compared by z3 with every number rounded to 4 significant digits for the human forms",
     "c13_case": "operation sequences (12 quick / 30 thorough) drawn from %s over a shared pool that results are fed back into (every fourth sequence starts from a pool of very small contracts: no assumptions, at most one guarantee); deep snapshot of operands and argument lists before/after, module tables, post-hoc mutation of results, immediate repetition, and replay of every step in a fresh interpreter" % OPS,
     "c14_case": "EXHAUSTIVE: every single-field deletion and every replacement by one of %d wrong-kind values of a valid contract dictionary in machine and human representation, through from_dict / validate+from_strings and through the file reader; plus file-entry and file-top-level faults" % len(WRONG),
     "c14_shapes_case": "adversarial shapes (empty lists, single variable, unbounded LPs, more eliminated variables than context rows, cancelling terms) through elimination, simplify, refines, is_empty, optimize with every single tactic",
